@@ -6,7 +6,7 @@ LOSSY = {"atoi", "atol", "atoll", "sscanf"}
 
 
 def run(ck):
-    facts = ck.facts(["src/anyp/Uri.cc"])
+    facts = ck.facts(["src/anyp/Uri.cc", "src/base/CharacterSet.cc"])
     parse = facts.fn("AnyP::Uri::parse")
     fl = ck.flow(parse)
 
@@ -42,4 +42,25 @@ def run(ck):
     less = E.m_calls("Less") & E.M(lambda t: E.const(E.strip(t)["a"][0]) == 65535 and E.m_is_ref("rawPort")(E.strip(t)["a"][1]), "Less(65535, rawPort)")
     ck.require_fact("U3.strict-port", fl, ret, less, False, "return", why="(CONNECT authority ports above 65535 would be accepted)")
     ck.require_fact("U3.strict-port", fl, ret, E.m_cmp("<", E.m_const(0), E.m_is_ref("rawPort")), True, "return")
+    ck.rule("U4 canonical form keeps the request-target: Squid stores path and query together in Uri::path_ and parse() does not decode it, so re-parsing the canonical form "
+            "gives the same path only if AnyP::Uri::absolutePath() leaves verbatim every byte that is legal there; the CharacterSet it hands to Encode() (folded from the "
+            "source) must contain RFC 3986 pchar / \"/\" / \"?\" (unreserved, sub-delims, ':', '@', '/', '?') and '%' (no double encoding). Without '?' the canonical form "
+            "of http://h/p?x=y is http://h/p%3Fx=y: a different path, and the origin receives a request-target without its query delimiter")
+    from ..charset import Folder, show
+    ap = facts.fn("AnyP::Uri::absolutePath")
+    enc = [E.strip(ev["x"]) for b in ap.blocks.values() for ev in b["ev"] if ev.get("e") == "call" and E.strip(ev["x"]).get("f") == "AnyP::Uri::Encode"]
+    ck.need(len(enc) == 1 and len(enc[0].get("a", [])) == 2, "C30: absolutePath() no longer derives the canonical path by one Encode(path(), set) call")
+    ck.need(any(n.get("f") == "AnyP::Uri::path" for n in E.walk(enc[0]["a"][0])), "C30: absolutePath() no longer encodes path()")
+    folder = Folder(ck, facts)
+    kept = folder._fold_local(ap, ck.local_defs(ap), enc[0]["a"][1])
+    legal = frozenset(ord(c) for c in "abcdefghijklmnopqrstuvwxyzABCDEFGHIJKLMNOPQRSTUVWXYZ0123456789-._~!$&'()*+,;=:@/?%")
+    missing = legal - kept
+    if not missing:
+        ck.ok("U4.canonical-path-verbatim", ap.where(), "absolutePath() keeps all %d bytes legal in path-and-query verbatim" % len(legal))
+    else:
+        ck.violation("U4.canonical-path-verbatim", "U4|absolutePath|encodes:%s" % show(missing), ap.where(),
+                     "absolutePath() percent-encodes {%s} although these bytes are legal (and '?' is structural) in the path-and-query string kept in Uri::path_: "
+                     "the canonical form no longer re-parses to the same path" % show(missing))
+    extra = kept - legal - frozenset(range(0x80, 0x100))
+    ck.need(not (kept & frozenset(range(0, 0x21))), "C30: absolutePath() would leave control bytes or space verbatim: %s" % show(kept & frozenset(range(0, 0x21))))
     ck.assume("canonical-form idempotence and host case folding are not decided")
